@@ -91,8 +91,8 @@ func c03Reset(e *bbsEnv, init []string, throttle bool) {
 			u.UserLevel = ptttype.PERM_DEFAULT
 			u.FirstLogin = now - 10*365*86400
 			u.LastLogin = now
-			if len(fl) > 0 && fl[0] != 0 {
-				u.LastLogin = now - 5*365*86400
+			if len(fl) > 0 {
+				u.LastLogin = now - types.Time4(c03Age(fl[0])) // negative age: the stamp is later than the clock reads now
 			}
 			if len(fl) > 1 && fl[1] != 0 {
 				u.UserLevel |= ptttype.PERM_XEMPT
@@ -184,6 +184,56 @@ func c03Do(method, path, auth string, body interface{}) (int, map[string]interfa
 
 const c03IP = "127.0.0.1"
 
+// c03Age: seconds between the last login of an initial account and the clock at the start of the history, by the
+// code in its flags (Model/C03.v age_of is the same table). Negative = the stamp lies AFTER the clock reading (the
+// account was used, then the host clock was stepped back; or the stamp was taken by a host whose clock is ahead).
+func c03Age(code byte) int64 {
+	limit := int64(ptttype.KEEP_DAYS_UNREGGED*24*60+ptttype.CLEAN_USER_EXPIRE_RANGE_MIN) * 60 // PERM_DEFAULT accounts: not LOGINOK
+	switch code {
+	case 1:
+		return 5 * 365 * 86400
+	case 2:
+		return -5
+	case 3:
+		return -3600
+	case 4:
+		return -400 * 86400
+	case 5:
+		return 14 * 86400
+	case 6:
+		return limit - 2*86400
+	case 7:
+		return limit + 2*86400
+	}
+	return 0
+}
+
+// c03ClockBack: the host clock is stepped back by d seconds. The process cannot move the real clock, so every stamp
+// the account operations compare with it moves ahead by d instead: LastLogin of every account in .PASSWDS and the
+// mtime of .fresh. (now - stamp) is what the code computes, and that is the same number either way.
+func c03ClockBack(e *bbsEnv, d int64) {
+	fn := filepath.Join(e.home, ".PASSWDS")
+	fb, err := os.ReadFile(fn)
+	must(err)
+	sz := int(ptttype.USEREC_RAW_SZ)
+	offID := int(unsafe.Offsetof(ptttype.USEREC_RAW.UserID))
+	offLL := int(unsafe.Offsetof(ptttype.USEREC_RAW.LastLogin))
+	for k := 0; (k+1)*sz <= len(fb); k++ {
+		rec := fb[k*sz : (k+1)*sz]
+		if rec[offID] == 0 {
+			continue
+		}
+		v := int32(binary.LittleEndian.Uint32(rec[offLL:offLL+4])) + int32(d)
+		binary.LittleEndian.PutUint32(rec[offLL:offLL+4], uint32(v))
+	}
+	must(os.WriteFile(fn, fb, 0o600))
+	fresh := filepath.Join(e.home, ".fresh")
+	if st, err := os.Stat(fresh); err == nil {
+		t := st.ModTime().Add(time.Duration(d) * time.Second)
+		must(os.Chtimes(fresh, t, t))
+	}
+}
+
 // one operation through bbs.*
 func c03Bbs(code int64, a []string) []string {
 	switch code {
@@ -195,6 +245,18 @@ func c03Bbs(code int64, a []string) []string {
 		return c03Ok([]byte(u))
 	case 2:
 		u, err := bbs.Login(a[0], a[1], c03IP)
+		if err != nil {
+			return errs(c03ErrCode(err))
+		}
+		return c03Ok([]byte(u))
+	case 10: // login from the client address a[2]
+		u, err := bbs.Login(a[0], a[1], a[2])
+		if err != nil {
+			return errs(c03ErrCode(err))
+		}
+		return c03Ok([]byte(u))
+	case 11: // registration from the client address a[3]
+		u, err := bbs.Register(a[0], a[1], a[3], a[2], []byte("nick"), []byte("real"), []byte("career"), []byte("address"), true)
 		if err != nil {
 			return errs(c03ErrCode(err))
 		}
@@ -331,8 +393,18 @@ func c03History(args [][]string) []string {
 			return []string{"9"}
 		}
 		code := ai(g[0])
+		if code == 12 { // the host clock is stepped back by g[1] seconds
+			if len(g) != 2 || ai(g[1]) < 0 || ai(g[1]) > 86400 {
+				return []string{"9"}
+			}
+			c03ClockBack(c03Env, ai(g[1]))
+			out = append(out, "-1")
+			out = append(out, c03Ok(nil)...)
+			out = append(out, c03Observe(c03Env, pwpool, idpool)...)
+			continue
+		}
 		a := c03Strs(g[1:])
-		want := map[int64]int{1: 3, 2: 2, 3: 2, 4: 3, 5: 2, 6: 1, 7: 1, 8: 0}
+		want := map[int64]int{1: 3, 2: 2, 3: 2, 4: 3, 5: 2, 6: 1, 7: 1, 8: 0, 10: 3, 11: 4}
 		if n, okk := want[code]; !okk || n != len(a) {
 			return []string{"9"}
 		}
@@ -367,6 +439,8 @@ func init() {
 				return c03History(args)
 			case 2: // a table of any size, given sparsely (c03big.go)
 				return c03BigHistory(args)
+			case 7: // the constants of the on-line table and of account expiry in this build
+				return []string{"0", oi(int64(ptttype.USHM_SIZE)), oi(int64(ptttype.KEEP_DAYS_UNREGGED)), oi(int64(ptttype.CLEAN_USER_EXPIRE_RANGE_MIN)), oi(int64(ptttype.PERM_DEFAULT & (ptttype.PERM_LOGINOK | ptttype.PERM_VIOLATELAW)))}
 			case 8: // the constants of the loader in this build
 				return []string{"0", oi(int64(ptttype.MAX_USERS)), oi(int64(cache.PRE_ALLOCATED_USERS))}
 			case 9: // the reserved ids the loader read from etc/reserved.id, and the constants the model takes from Gen/
